@@ -237,6 +237,13 @@ func ruleC17(w *World, r *Report) {
 
 	// Cartesian product dispatch
 	ruleC17Cartesian(w, r, cart, complexF, trivial, isR)
+	// error discipline: a refusal of one side refuses the pair
+	nE := errorsPropagate(w, r, "R17.2", cart, func(c *ssa.Call) bool {
+		g := staticCallee(c)
+		return g == complexF || g == trivial
+	}, successReturns(cart), "refuses the pair")
+	r.floor("R17.2 conversion calls in the Cartesian product", nE, 3)
+	ruleC17Consumers(w, r, cart)
 
 	// ---- asComplexTernaryMatches: fast paths, strategy guard and loop shape
 	ruleC17Complex(w, r, complexF, isW, isE, isR, width, exactUn)
@@ -900,4 +907,98 @@ func appendedLiteral(p *Path, arg ssa.Value) string {
 		}
 	}
 	return res
+}
+
+
+// rulesFromCartesian: v is the rule list of CreatePortRangeCartesianProduct applied to the PDR's two
+// port ranges, possibly through repo helpers every success return of which hands that list on.
+func rulesFromCartesian(w *World, v ssa.Value, cart *ssa.Function, depth int) (bool, string) {
+	if depth > 3 {
+		return false, "helper chain too deep"
+	}
+	ex, ok := v.(*ssa.Extract)
+	if !ok || ex.Index != 0 {
+		return false, "the rule list is " + symOf(v).String()
+	}
+	c, ok := ex.Tuple.(*ssa.Call)
+	if !ok {
+		return false, "the rule list is " + symOf(v).String()
+	}
+	g := staticCallee(c)
+	if g == cart {
+		a, b := symOf(c.Call.Args[0]).String(), symOf(c.Call.Args[1]).String()
+		if strings.HasSuffix(a, "appFilter.srcPortRange") && strings.HasSuffix(b, "appFilter.dstPortRange") {
+			return true, ""
+		}
+		return false, "CreatePortRangeCartesianProduct(" + a + ", " + b + ")"
+	}
+	if g == nil || !w.isRepoFunc(g) || g.Blocks == nil {
+		return false, "the rule list comes from " + calleeName(c)
+	}
+	n := 0
+	for _, ret := range returnsOf(g) {
+		if len(ret.Results) != 2 || !isNilConst(res(ret, 1)) {
+			// an error return, or the (list, err) pair of an inner call handed on as it is
+			if len(ret.Results) == 2 {
+				if ex2, ok := res(ret, 0).(*ssa.Extract); ok && ex2.Index == 0 {
+					if ex3, ok := res(ret, 1).(*ssa.Extract); ok && ex3.Tuple == ex2.Tuple {
+						n++
+						if ok2, why := rulesFromCartesian(w, res(ret, 0), cart, depth+1); !ok2 {
+							return false, why
+						}
+					}
+				}
+			}
+			continue
+		}
+		n++
+		if ok2, why := rulesFromCartesian(w, res(ret, 0), cart, depth+1); !ok2 {
+			return false, w.FuncName(g) + " returns a list that is not the expansion: " + why
+		}
+	}
+	return n > 0, "no success return in " + w.FuncName(g)
+}
+
+// ruleC17Consumers: the BESS PDR writers install exactly the rules the expansion returns and nothing
+// when it refuses.
+func ruleC17Consumers(w *World, r *Report, cart *ssa.Function) {
+	const P = "C17"
+	n := 0
+	for _, name := range []string{"pfcpiface.(*bess).addPDR$1", "pfcpiface.(*bess).delPDR$1"} {
+		f := w.Fn(P, name)
+		proc := w.Fn(P, "pfcpiface.(*bess).processPDR")
+		// the range loop that feeds processPDR
+		var ranged ssa.Value
+		for _, b := range f.Blocks {
+			ifi := blockIf(b)
+			if ifi == nil {
+				continue
+			}
+			bo, ok := ifi.Cond.(*ssa.BinOp)
+			if !ok || !isRangeIndexOf(bo.X) {
+				continue
+			}
+			lc, ok := bo.Y.(*ssa.Call)
+			if !ok || calleeName(lc) != "builtin.len" {
+				continue
+			}
+			// the loop body reaches processPDR
+			if reach(f, firstInstr(b.Succs[0]), func(i ssa.Instruction) bool { return isCallTo(i, proc) }, nil, nil) != nil {
+				ranged = lc.Call.Args[0]
+			}
+		}
+		if ranged == nil {
+			r.bad("R17.5", name, "one datapath entry per expanded rule", w.Pos(f.Pos()), "no loop over the expanded rules feeds processPDR")
+			continue
+		}
+		n++
+		okP, why := rulesFromCartesian(w, ranged, cart, 0)
+		r.check(okP, "R17.5", name, "the installed port rules are the expansion of the PDR's two port ranges", w.Pos(f.Pos()), "CreatePortRangeCartesianProduct(p.appFilter.srcPortRange, p.appFilter.dstPortRange)", "the port rules installed are not (only) the expansion of the PDR's ranges: "+why)
+		// no datapath write after a refusal
+		errorsPropagate(w, r, "R17.5", f, func(c *ssa.Call) bool {
+			ex, ok := ranged.(*ssa.Extract)
+			return ok && ex.Tuple == ssa.Value(c)
+		}, func(i ssa.Instruction) bool { return isCallTo(i, proc) }, "installs nothing")
+	}
+	r.floor("R17.5 consumers of the expansion", n, 2)
 }
